@@ -1,5 +1,15 @@
-"""C11 closure obligations (operations on valid arrays return valid arrays) - filled in by the property modules."""
+"""C11 closure obligations (operations on valid arrays return valid arrays), at kernel granularity: the functional oracles of the
+slicing / padding / flattening / combinations pipelines pin every produced offset, carry and index to a value inside the documented
+range, so holding them on documented-valid inputs implies that the produced index buffers again satisfy the documented rules.  A
+representative subset of those harnesses is re-run here as part of C11."""
 
 
 def jobs(tier):
-    return []
+    from . import c01, c05, c09, c07
+    pick = lambda js, names, k: [j for j in js if j[0].__name__ in names][:k]
+    out = []
+    out += pick(c01.jobs(tier), ('h_next_range', 'h_next_array', 'h_indexed_nextcarry'), 30)
+    out += pick(c05.jobs(tier), ('h_flatten_offsets', 'h_none2empty', 'h_localindex'), 30)
+    out += pick(c09.jobs(tier), ('h_listarray_rpad', 'h_listoffset_rpad'), 30)
+    out += pick(c07.jobs(tier), ('h_list',), 20)
+    return out
